@@ -173,6 +173,11 @@ pub enum CapOp {
     /// what the connection window can give (conservation probe)
     CensusFinal,
     End { s: usize },
+    /// end the stream with a trailer section instead of an empty final DATA frame
+    EndTrailers { s: usize },
+    /// with capacity in hand that is smaller than before (part of it was just used): wait until capacity() has
+    /// grown above `above` again (the send buffer drained), polling poll_capacity in between
+    WaitIncrease { s: usize, above: usize },
     Reset { s: usize, code: u32 },
     Drop { s: usize },
     Yield(usize),
@@ -1300,6 +1305,48 @@ async fn cap_app(prog: CapProgram, handles: Vec<server::SendResponse<SegBuf>>, l
                             Ok(()) => log.push(Side::Server, sids[*s], Api::SentData { len: 0, eos: true }),
                             Err(e) => log.push(Side::Server, sids[*s], Api::SendErr { op: "send_data", err: err_info(&e) }),
                         }
+                    }
+                }
+            }
+            CapOp::EndTrailers { s } => {
+                if let Some(slot) = streams.get_mut(*s) {
+                    if let Some(mut st) = slot.take() {
+                        let mut tm = http::HeaderMap::new();
+                        tm.insert("x-t", http::HeaderValue::from_static("1"));
+                        match st.send_trailers(tm) {
+                            Ok(()) => log.push(Side::Server, sids[*s], Api::SentTrailers { fields: vec![("x-t".into(), "1".into())] }),
+                            Err(e) => log.push(Side::Server, sids[*s], Api::SendErr { op: "send_trailers", err: err_info(&e) }),
+                        }
+                    }
+                }
+            }
+            CapOp::WaitIncrease { s, above } => {
+                if let Some(Some(st)) = streams.get_mut(*s) {
+                    let before = *above;
+                    log.push(Side::Server, sids[*s], Api::ConnOp { op: format!("wait for capacity above {}", before) });
+                    let r = poll_fn(|cx| {
+                        if st.capacity() > before {
+                            return Poll::Ready(Ok(st.capacity()));
+                        }
+                        match st.poll_capacity(cx) {
+                            Poll::Ready(Some(Ok(_))) => {
+                                if st.capacity() > before {
+                                    Poll::Ready(Ok(st.capacity()))
+                                } else {
+                                    // a notification without an increase: ask again
+                                    cx.waker().wake_by_ref();
+                                    Poll::Pending
+                                }
+                            }
+                            Poll::Ready(Some(Err(e))) => Poll::Ready(Err(err_info(&e))),
+                            Poll::Ready(None) => Poll::Ready(Err(ErrInfo { reason: None, is_remote: false, is_library: false, is_reset: false, is_go_away: false, is_io: false, text: "poll_capacity: None".into() })),
+                            Poll::Pending => Poll::Pending,
+                        }
+                    })
+                    .await;
+                    match r {
+                        Ok(c) => log.push(Side::Server, sids[*s], Api::Capacity { got: c }),
+                        Err(e) => log.push(Side::Server, sids[*s], Api::CapacityErr { err: e }),
                     }
                 }
             }
